@@ -273,3 +273,69 @@ func runSeqLine(t []string) string {
 func init() {
 	handlers["runseq"] = runSeqLine
 }
+
+// resume <cfg> <seed> <hexp> <hexq> : p;q on one VM  vs  p on a second VM, GetCurSeed, fresh third VM seeded
+// with those bytes and given the second VM's variables, then q. Prints both outcomes of q.
+func resumeLine(t []string) string {
+	if len(t) != 5 {
+		return "bad-op"
+	}
+	cfg, ok := parseCfg(t[1])
+	p, ok2 := unhx(t[3])
+	q, ok3 := unhx(t[4])
+	if !ok || !ok2 || !ok3 {
+		return "bad-op"
+	}
+	vm1, ok := newVM(cfg, t[2])
+	if !ok {
+		return "bad-op"
+	}
+	_ = runOne(vm1, p)
+	a := runOne(vm1, q)
+	vm2, _ := newVM(cfg, t[2])
+	_ = runOne(vm2, p)
+	seed, err := vm2.GetCurSeed()
+	if err != nil {
+		return "err-getcurseed"
+	}
+	vm3 := &ds.Context{}
+	vm3.Seed = seed
+	vm3.Init()
+	vm3.Config = cfg
+	vm3.Attrs = vm2.Attrs
+	b := runOne(vm3, q)
+	return a + " || " + b
+}
+
+// reinit <cfg> <seed1> <seed2> <hexp> <hexq> : seed1, run p, then Seed=seed2; Init(); run q   vs   fresh VM seed2, run q
+func reinitLine(t []string) string {
+	if len(t) != 6 {
+		return "bad-op"
+	}
+	cfg, ok := parseCfg(t[1])
+	p, ok2 := unhx(t[4])
+	q, ok3 := unhx(t[5])
+	if !ok || !ok2 || !ok3 {
+		return "bad-op"
+	}
+	vm1, ok := newVM(cfg, t[2])
+	if !ok {
+		return "bad-op"
+	}
+	_ = runOne(vm1, p)
+	b2, err := hex.DecodeString(t[3])
+	if err != nil || len(b2) != 16 {
+		return "bad-op"
+	}
+	vm1.Seed = b2
+	vm1.Init()
+	a := runOne(vm1, q)
+	vm2, _ := newVM(cfg, t[3])
+	b := runOne(vm2, q)
+	return a + " || " + b
+}
+
+func init() {
+	handlers["resume"] = resumeLine
+	handlers["reinit"] = reinitLine
+}
